@@ -48,6 +48,7 @@ def r1_load_bytes(facts, rep):
         "serde_cbor::to_vec": ("to_vec", "fallible-value"),
     }
     dom = EffectDomain(effects, oracle=oracle)
+    dom.uninterp = lambda n: facts.fn(n) is None  # private helpers of load_bytes are followed
     it = core.Interp(facts, dom, budget=100000)
     adt = facts.adt("db::Db")
     fields = [f["name"] for f in adt["variants"][0]["fields"]] if adt else []
